@@ -59,7 +59,7 @@ package boltz
 //@   ensures[new-target-lists-the-row] !holderFailed[ctx.ErrHolder] && old(fkChanged(index, ctx)) && str_len(old(fkNew(index, ctx))) > 0 ==> fkListed(fkB(index, ctxTx[ctx.Ctx], old(fkNew(index, ctx))), str(ctx.RowId))
 //@   ensures[old-target-no-longer-lists-the-row] !holderFailed[ctx.ErrHolder] && old(fkChanged(index, ctx)) && str_len(old(fkOld(index, ctx))) > 0 && old(fkOld(index, ctx)) != old(fkNew(index, ctx)) ==> !fkListed(fkB(index, ctxTx[ctx.Ctx], old(fkOld(index, ctx))), str(ctx.RowId))
 //@ func (*fkIndex).ProcessBeforeDelete
-//@   props C04
+//@   props C04 C06
 //@   nosafety
 //@   modifies *
 //@   ensures[pending-error-does-nothing] old(holderFailed[ctx.ErrHolder]) ==> dbSame()
@@ -69,9 +69,9 @@ package boltz
 // the predicate that selects the referrers is built as the node `symbol in [id]` with the id as a string value and
 // then typed; it is never assembled as filter text (an id with quotes, backslashes or keywords is just a value)
 //@ func (*fkDeleteCascadeConstraint).ProcessBeforeDelete
-//@   props C04
+//@   props C04 C06
 //@   nosafety
-//@   modifies *, ocCnt, ocFn, ocRecv, cxN, cxWho, cxPhase, cxCtx, cxPersist, edDone
+//@   modifies *, ocCnt, ocFn, ocRecv, cxN, cxWho, cxPhase, cxCtx, cxPersist, edDone, pdN, pdWho, pdId
 //@   callpre[predicate-is-symbol-in-id-as-a-value] PostProcess@1: istype(*arg1, *ast.InArrayExprNode) && istype(as(*arg1, *ast.InArrayExprNode).left, *ast.UntypedSymbolNode) && as(as(*arg1, *ast.InArrayExprNode).left, *ast.UntypedSymbolNode).symbol == esName(index.symbol) && istype(as(*arg1, *ast.InArrayExprNode).right, *ast.StringArrayNode) && len(as(as(*arg1, *ast.InArrayExprNode).right, *ast.StringArrayNode).values) == 1 && istype(as(as(*arg1, *ast.InArrayExprNode).right, *ast.StringArrayNode).values[0], *ast.StringConstNode) && as(as(as(*arg1, *ast.InArrayExprNode).right, *ast.StringArrayNode).values[0], *ast.StringConstNode).value == str(ctx.RowId)
 //@   callpre[typed-against-the-referencing-store] PostProcess@1: ref(arg0) == symStoreOf(index.symbol)
 //@   callpre[cascade-deletes-through-the-referencing-store-in-this-context] DeleteById@1: ref(recv) == symStoreOf(index.symbol) && arg0 == ctx.Ctx
@@ -93,7 +93,7 @@ package boltz
 //@   pure
 //@   ensures result != nil
 //@ func (*fkDeleteConstraint).ProcessBeforeDelete
-//@   props C04
+//@   props C04 C06
 //@   nosafety
 //@   modifies *
 //@   ensures[database-untouched] dbSame()
